@@ -83,11 +83,6 @@ func (s *Server) HandlePutService(w http.ResponseWriter, r *http.Request) {
 
 	service.Metadata = *metadata
 
-	// remember what was stored under this name: if the entity ID changes, the
-	// previous one must not stay registered
-	previous := Service{}
-	hadPrevious := s.Store.Get(fmt.Sprintf("/services/%s", r.PathValue("id")), &previous) == nil
-
 	err = s.Store.Put(fmt.Sprintf("/services/%s", r.PathValue("id")), &service)
 	if err != nil {
 		s.logger.Printf("ERROR: %s", err)
@@ -95,12 +90,13 @@ func (s *Server) HandlePutService(w http.ResponseWriter, r *http.Request) {
 		return
 	}
 
-	forgetPrevious := hadPrevious && previous.Metadata.EntityID != service.Metadata.EntityID &&
-		!s.entityIDStored(previous.Metadata.EntityID)
-
+	// if the entity ID stored under this name changes, the previous one must
+	// not stay registered (unless another service still carries it)
 	s.idpConfigMu.Lock()
-	if forgetPrevious {
-		delete(s.serviceProviders, previous.Metadata.EntityID)
+	previous, hadPrevious := s.serviceEntityIDs[r.PathValue("id")]
+	s.serviceEntityIDs[r.PathValue("id")] = service.Metadata.EntityID
+	if hadPrevious && previous != service.Metadata.EntityID && !s.entityIDStored(previous) {
+		delete(s.serviceProviders, previous)
 	}
 	s.serviceProviders[service.Metadata.EntityID] = &service.Metadata
 	s.idpConfigMu.Unlock()
@@ -125,29 +121,23 @@ func (s *Server) HandleDeleteService(w http.ResponseWriter, r *http.Request) {
 	}
 
 	// another stored service may still carry the same entity ID
+	s.idpConfigMu.Lock()
+	delete(s.serviceEntityIDs, r.PathValue("id"))
 	if !s.entityIDStored(service.Metadata.EntityID) {
-		s.idpConfigMu.Lock()
 		delete(s.serviceProviders, service.Metadata.EntityID)
-		s.idpConfigMu.Unlock()
 	}
+	s.idpConfigMu.Unlock()
 
 	w.WriteHeader(http.StatusNoContent)
 }
 
-// entityIDStored reports whether any stored service currently has entityID. If
-// the store cannot be read it answers true, so that nothing is unregistered on
-// a guess.
+// entityIDStored reports whether any stored service currently has entityID. It
+// consults the server's own record of what it stored under each name, not the
+// store: the answer must not depend on whether the store can be read back at
+// this moment. The caller holds idpConfigMu.
 func (s *Server) entityIDStored(entityID string) bool {
-	serviceNames, err := s.Store.List("/services/")
-	if err != nil {
-		return true
-	}
-	for _, serviceName := range serviceNames {
-		service := Service{}
-		if err := s.Store.Get(fmt.Sprintf("/services/%s", serviceName), &service); err != nil {
-			return true
-		}
-		if service.Metadata.EntityID == entityID {
+	for _, storedEntityID := range s.serviceEntityIDs {
+		if storedEntityID == entityID {
 			return true
 		}
 	}
@@ -169,6 +159,7 @@ func (s *Server) initializeServices() error {
 
 		s.idpConfigMu.Lock()
 		s.serviceProviders[service.Metadata.EntityID] = &service.Metadata
+		s.serviceEntityIDs[serviceName] = service.Metadata.EntityID
 		s.idpConfigMu.Unlock()
 	}
 	return nil
